@@ -648,3 +648,65 @@ def lame(Ri, Re, Pi, Pe, E, nu, axial, value=0.):
         return r * (stt(r) - nu * (srr(r) + szz)) / E
 
     return {"A": A, "B": B, "ezz": ezz, "szz": szz, "srr": srr, "stt": stt, "ur": ur}
+
+
+# ------------------------------------------------------------------ comparison of two result files (C49 band)
+def smallest_modulus(pb):
+    b, mp = pb["behaviour"], pb["mp"]
+    E = young_modulus(b, mp)
+    if b == "VPlasticity":
+        return min(0.3 * E, mp["HardeningSlope"])
+    if b == "VKinematic":
+        return 6e9
+    return 0.3 * E
+
+
+def column_kinds(pb, names):
+    ncomp = len(HYPOTHESES[pb["hypothesis"]][0])
+    kinds = []
+    for i, n in enumerate(names):
+        if i == 0:
+            kinds.append("time")
+        elif i <= ncomp:
+            kinds.append("strain")
+        elif i <= 2 * ncomp:
+            kinds.append("stress")
+        elif "energy" in n:
+            kinds.append("energy")
+        else:
+            kinds.append("strain")  # the internal state variables of the library are strains
+    return kinds
+
+
+def convergence_band(pb, R, nsteps, eeps, seps):
+    """band (C = 1) within which two converged computations of the same problem agree:
+    stress columns (E eeps + seps) n_steps, strain-like columns the same / smallest tangent modulus,
+    energies stress band x max|strain| + strain band x max|stress|"""
+    ncomp = len(HYPOTHESES[pb["hypothesis"]][0])
+    E = young_modulus(pb["behaviour"], pb["mp"])
+    maxe = max([abs(x) for row in R.rows for x in row[1:1 + ncomp]] + [1e-12])
+    maxs = max([abs(x) for row in R.rows for x in row[1 + ncomp:1 + 2 * ncomp]] + [1.])
+    bs = (E * eeps + seps) * max(1, nsteps)
+    be = bs / smallest_modulus(pb)
+    tmax = max([abs(row[0]) for row in R.rows] + [1e-300])
+    return {"stress": bs, "strain": be, "energy": bs * maxe + be * maxs, "time": 1e-14 * tmax}
+
+
+def compare_results(pb, R, P, nsteps, eeps, seps, cband, errs=None, tag=""):
+    """returns None when every column of every row agrees within cband x band, else (kind, message)"""
+    kinds = column_kinds(pb, R.names)
+    band = convergence_band(pb, R, nsteps, eeps, seps)
+    if len(R.rows) != len(P.rows):
+        return "rows", "%d rows against %d" % (len(R.rows), len(P.rows))
+    for ra, rb in zip(R.rows, P.rows):
+        if len(ra) != len(rb):
+            return "rows", "rows of different lengths at t=%r" % ra[0]
+        for i, (x, y) in enumerate(zip(ra, rb)):
+            k = kinds[i]
+            tol = cband * band[k] + 4e-15 * max(abs(x), abs(y))
+            e = abs(x - y)
+            if not (e <= tol):  # also catches NaN
+                return k, "t=%r column %s: %r against %r (|diff| %.3g > band %.3g)" % (ra[0], R.names[i], x, y, e, tol)
+            if errs is not None:
+                errs[k + tag] = max(errs.get(k + tag, 0.), e / tol)
+    return None
